@@ -132,10 +132,37 @@ pub unsafe fn set_external_session_globals(ptr: *const std::ffi::c_void) {
     EXTERNAL_SESSION_GLOBALS.store(ptr as *mut Mutex<SessionGlobals>, Ordering::Release);
 }
 
+/// Verification hook (cargo feature `verif-hooks`, off by default): a scheduling point in front
+/// of every access to the session globals, so that a test harness can own the interleaving of
+/// concurrent compilations. A no-op unless a callback has been installed.
+#[cfg(feature = "verif-hooks")]
+pub mod verif_hooks {
+    use std::sync::atomic::{AtomicUsize, Ordering};
+
+    static SCHED_POINT: AtomicUsize = AtomicUsize::new(0);
+
+    /// Install (or remove) the callback run at every scheduling point.
+    pub fn set_sched_point(f: Option<fn()>) {
+        SCHED_POINT.store(f.map_or(0, |f| f as usize), Ordering::Release);
+    }
+
+    #[inline]
+    pub(super) fn sched_point() {
+        let p = SCHED_POINT.load(Ordering::Acquire);
+        if p != 0 {
+            // SAFETY: only `set_sched_point` stores here, and it stores a valid `fn()`.
+            let f: fn() = unsafe { std::mem::transmute::<usize, fn()>(p) };
+            f();
+        }
+    }
+}
+
 pub fn with_session_globals<R, F>(f: F) -> R
 where
     F: FnOnce(&mut SessionGlobals) -> R,
 {
+    #[cfg(feature = "verif-hooks")]
+    verif_hooks::sched_point();
     let external = EXTERNAL_SESSION_GLOBALS.load(Ordering::Acquire);
     let mutex: &Mutex<SessionGlobals> = if !external.is_null() {
         // SAFETY: set_external_session_globals guarantees the pointer is valid.
